@@ -196,6 +196,9 @@ func TestVerifC01(t *testing.T) {
 				seekT = ts[0] - 1000
 			case 1:
 				seekT = ts[len(ts)-1] + 1000
+			case 2:
+				// boundary values of the timestamp domain (a reader may seek to "the beginning")
+				seekT = rapid.SampledFrom([]int64{math.MinInt64, math.MinInt64 + 1, -1, 0, math.MaxInt64}).Draw(rt, "seekBoundary")
 			}
 		}
 		if seekPrefix == 0 && known[sigC01FreshSeek] {
